@@ -14,7 +14,7 @@ import PersimVerif.Model.PLArith
   `pla.xexpr <leaves> <expr>`  `run` on an expression tree `[leaf,i] | [add,e,f] | [sub,e,f] | [neg,e] |
         [smul,c,e] | [sdiv,e,c]`;  `pla.gexpr` the same for grids.
   `pla.xdenote <leaves> <expr> <k> <ts>`   `denote` at depth `k` and the abscissae `ts`.
-  `pla.gdenote <leaves> <expr> <k>`         `denoteG` at depth `k`, all columns of leaf 0's grid.
+  `pla.gdenote <leaves> <expr> <k> <n>`     `denoteG` at depth `k`, samples `0 … n-1`.
   `pla.eval <depth> <ts>`      `evalPL` of one depth list;   `pla.wf <critical_pairs>` the guard per depth.
 -/
 namespace PersimVerif.Drv.PLArith
@@ -148,12 +148,12 @@ def handle : Handler
     if (leavesIn ex).any (· ≥ leaves.size) then none else
     let k ← asNat? k
     pure (ofRats ((← listOf? asRat? ts).map fun t => denote (fun i => leaves.getD i ⟨0, []⟩) ex k t))
-  | "pla.gdenote", [ls, e, k] => do
+  | "pla.gdenote", [ls, e, k, n] => do
     let leaves := (← listOf? gridOf? ls).toArray
     let ex ← exprOf? e
     if (leavesIn ex).any (· ≥ leaves.size) then none else
     let k ← asNat? k
-    let n := (← leaves[0]?).numSteps
+    let n ← asNat? n
     pure (ofRats ((List.range n).map fun j => denoteG (fun i => leaves.getD i ⟨0, 0, 0, 0, []⟩) ex k j))
   | "pla.eval", [d, ts] => do
     let l ← ratDgm? d
